@@ -15,11 +15,12 @@ class Ctx:
         self.harness = {}
         self.driver = None
         self.stats = {}
+        self.impl_opts = {}
 
     def impl(self, lines, profile='debug', shards=vlib.NCPU):
         if profile not in self.harness:
             self.harness[profile] = vlib.build_harness(profile)
-        return vlib.run_lines(self.harness[profile], lines, shards=shards)
+        return vlib.run_lines(self.harness[profile], lines, shards=shards, **self.impl_opts)
 
     def model(self, lines, shards=vlib.NCPU):
         if self.driver is None:
@@ -32,6 +33,7 @@ def run(pid, tier, seed):
     sys.path.insert(0, os.path.join(vlib.VERIF, 'tools', 'props'))
     mod = importlib.import_module(pid.lower())
     ctx = Ctx(pid, tier, seed)
+    ctx.impl_opts = dict(getattr(mod, 'IMPL_OPTS', {}))
     rng = vlib.Rng(seed)
     broken = []          # proof obligations / tie that no longer check
     violations = []      # concrete failing inputs: dict(case=..., why=..., impl=...)
